@@ -284,6 +284,40 @@ class CallListerVisitor(ast.NodeVisitor):
     def visit_Attribute(self, node):
         pass
 
+    def _rebound(self, name):
+        # a name bound by something else than an assignment to an ast.Name
+        self.visit_Name(ast.Name(id=name, ctx=ast.Store()))
+
+    def visit_ExceptHandler(self, node):
+        if node.name:
+            self._rebound(node.name)
+        self.generic_visit(node)
+
+    def visit_alias(self, node):
+        self._rebound(node.asname or node.name.split('.')[0])
+
+    def visit_MatchAs(self, node):
+        if node.name:
+            self._rebound(node.name)
+        self.generic_visit(node)
+
+    def visit_MatchStar(self, node):
+        if node.name:
+            self._rebound(node.name)
+
+    def visit_MatchMapping(self, node):
+        if node.rest:
+            self._rebound(node.rest)
+        self.generic_visit(node)
+
+    def visit_ClassDef(self, node):
+        self._rebound(node.name)
+        self.generic_visit(node)
+
+    def visit_AsyncFunctionDef(self, node):
+        self._rebound(node.name)
+        self.generic_visit(node)
+
     def has_hide_starargs(self, found, original):
         if found:
             if found == original:
